@@ -28,7 +28,8 @@ META = {
               ["three-valued oracle: extension-block length overrunning the body and trailing bytes inside a body are don't-care"]),
     "C05": _m(["content longer than 12 bytes; one or two content lengths per type in the quick tier (type x length matrix in the thorough tier)",
                "lists of more than 2 extensions"],
-              ["client/server dispatchers may answer Unknown for a type they do not know, never a different typed variant"]),
+              ["client/server dispatchers may answer Unknown for a type they do not know, never a different typed variant",
+               "E2 cross-check of the three dispatch tables is name-based (callee function names in MIR); an unknown callee name is inconclusive, not a violation"], e2=True),
     "C06": _m(["suffixes longer than one byte are covered by induction over the buffer bound of each harness, not beyond it",
                "dispatching parsers only with concrete type and declared length"]),
     "C07": _m(["the real payload parser only for the empty-first-fragment heartbeat history; everything else uses a model callee (composition argument)",
